@@ -810,3 +810,17 @@ Proof.
   intros N hlen p p' o sn HN Hw E. pose proof (pool_obtain_spec N hlen p HN Hw) as H. rewrite E in H.
   destruct H as (_ & H & _); auto.
 Qed.
+
+(* ------------------------------------------------------------------ INVALID_NODE_INDEX (translated constants) *)
+From Coq Require Import NArith.
+From Muscle Require Import Gen.Consts.
+
+(* the model writes INVALID_NODE_INDEX as [None]; that is sound as long as no valid node index can
+   equal ((uintNN)-1): slabs never hold more than c_pool_max_objects_per_slab objects (the
+   static_assert in ObjectPool's constructor) and that bound does not exceed the invalid index *)
+Lemma invalid_index_bound : (c_pool_max_objects_per_slab <= 2 ^ c_pool_node_index_bits - 1)%N.
+Proof. vm_compute. discriminate. Qed.
+
+Theorem valid_index_not_invalid : forall N i, (N.of_nat N <= c_pool_max_objects_per_slab)%N -> i < N ->
+  N.of_nat i <> (2 ^ c_pool_node_index_bits - 1)%N.
+Proof. intros N i HN Hi. pose proof invalid_index_bound. lia. Qed.
